@@ -7,6 +7,42 @@ KERNEL_NOTE = ('Trusted: Lean kernel; axioms propext/Classical.choice/Quot.sound
                'deterministic fakes on the Python side and by the recorded answers on the model side); kernel contracts are hypotheses; '
                'exact field arithmetic (IEEE rounding not modelled).')
 CHECKS = {
+ 'C06': {
+  'text': 'Proof (partial): for every L (incl. chains shorter than the longest term), all parameters and all Bose dimensions: the chain lists handed to from_opchains are well formed, are word by word '
+          'the documented sums of local terms (XXZ spin-1/2 and spin-1, Bose-Hubbard, Fermi-Hubbard with the Jordan-Wigner factor; Ising via its automaton), the compiled graphs denote those sums '
+          '(via C05/C17), operator tables are charge consistent (magnetization / particle number / spin) and whenever a constructor returns all tensors are block sparse, and the term lists are closed '
+          'under the adjoint word map for real parameters (28 theorems). Not proved: the last step from symbolic words to the dense matrix (kron semantics of from_opgraph is in C05 but not chained here), '
+          'the words of the hand-built linear_fermionic graph (modelled completely and compared exactly), dense Hermiticity; these are carried by the exact correspondence of chain lists, tables, graphs '
+          'and MPO tensors for L = 1..6 and by the oracle.',
+  'note': KERNEL_NOTE + ' No kernel contracts. sqrt(2), sqrt(k) of the spin-1 / Bose tables are symbols whose square is given.',
+  'design_ref': 'DESIGN.md §7 C06',
+ },
+ 'C07': {
+  'text': 'Proof (partial): for every orbital count and all coefficient tensors the chain enumeration of the bond-optimized spinless and spin-orbital constructions never fails (case analysis, '
+          'to_spin_opchain look-ups and charge assertions) and yields well-formed chains, so with C05 the optimized construction succeeds incl. L = 1 and its graph denotes the sum of its chains; '
+          'explicit constructions: node ids pairwise distinct, terminal look-ups defined, (spinless, L >= 4) every look-up made by term insertion defined; tensors block sparse whenever a constructor '
+          'returns (10 theorems). Not proved: equality with the second-quantized operator and optimized = explicit (compared as complete graphs / MPOs by the correspondence and densely by the oracle); '
+          'the gauge-transform clause is a numerical always-on sub-check (L up to 7/8, complex unitaries), not a theorem: the transform is not modelled.',
+  'note': KERNEL_NOTE + ' No kernel contracts.',
+  'design_ref': 'DESIGN.md §7 C07',
+ },
+ 'C20': {
+  'text': 'Proof (partial): for arbitrary chain lists the number of nodes created in each sweep round of from_opchains never exceeds the number of chains with non-zero coefficient '
+          '(uses the vertex-cover size theorem of C18), every successful run is such a sweep; merge_edges/simplify only remove nodes and edges (5 theorems; *_partial: the identification of sweep '
+          'round k with layer k+1 and layer preservation under simplify are validated by the correspondence, not proved). The Schmidt-rank equality for generic parameters cannot be carried by a theorem '
+          'here (generic real parameters, numerical rank): it is checked by the oracle (SVD rank vs bond_dims, L <= 6) after a break, and bond dimensions of all compiled graphs are part of the exact '
+          'correspondence.',
+  'note': KERNEL_NOTE + ' No kernel contracts.',
+  'design_ref': 'DESIGN.md §7 C20',
+ },
+ 'C16': {
+  'text': 'Proof (partial correctness, full for the listed rewrites): on every graph passing is_consistent (duplicate-free dictionaries) flip reverses every term, rename_node_id / rename_edge_id / '
+          'merge_edges (both cases, exactly under the asserted conditions) / each _simplify_step / simplify / add preserve resp. add the path-sum denotation and keep is_consistent true; each successful '
+          'simplify step removes one edge; any finite sequence of these rewrites (history) (14 theorems). Not proved: that simplify/add return (termination within the model fuel) — observed by the '
+          'correspondence; "other graph untouched" is trivial in a functional model and is carried by the correspondence (other_unchanged / shares_objects) and oracle.',
+  'note': KERNEL_NOTE + ' No kernel contracts.',
+  'design_ref': 'DESIGN.md §7 C16',
+ },
  'C05': {
   'text': 'Proof (full for the chains->graph clause; graph->MPO conditional on the conversion returning): the half-chain partition and the site step preserve the weighted sum for ANY cover routine; '
           'from_opchains denotes exactly the sum of padded chains (duplicates, accumulation, cancellation, single chain with any coefficient, L = 1), the graph is consistent, has the requested '
